@@ -217,6 +217,18 @@ func c12Run(w *core.W) {
 		}
 	}
 
+	w.Family("operand-expressions-right-of-a-compound-operand")
+	for _, o := range operands(scTop, true) {
+		e := o.E
+		ok := emit("compound-left + e", "full", []T{Bin("+", Bin("*", I(2), I(3)), e)}, []T{Blk(Asg("t", e), Bin("+", Bin("*", I(2), I(3)), N("t")))}) &&
+			emit("compound-left array + e", "full", []T{Bin("+", Bin("+", L(I(9)), L(I(8))), e)}, []T{Blk(Asg("t", e), Bin("+", Bin("+", L(I(9)), L(I(8))), N("t")))}) &&
+			emit("compound-left deep - e", "full", []T{Bin("-", Bin("+", Bin("*", I(2), I(3)), I(1)), e)}, []T{Blk(Asg("t", e), Bin("-", Bin("+", Bin("*", I(2), I(3)), I(1)), N("t")))}) &&
+			emit("compound-left string + toa(e)", "full", []T{Bin("+", Bin("+", S("a"), S("b")), Call("toa", e))}, []T{Blk(Asg("t", Call("toa", e)), Bin("+", Bin("+", S("a"), S("b")), N("t")))}) &&
+			emit("compound-left < e", "full", []T{Bin("<", Bin("+", I(2), I(3)), e)}, []T{Blk(Asg("t", e), Bin("<", Bin("+", I(2), I(3)), N("t")))})
+		if !ok {
+			return
+		}
+	}
 	w.Family("increment-forms")
 	for _, v := range c05Values() {
 		top := func(s ...T) []T { return append([]T{Asg("x", v)}, s...) }
